@@ -169,7 +169,23 @@ def build_mesh(df, m, subs, emb):
         mesh = df.Mesh(region=df.Region(p1=p1, p2=p2, dims=names), n=tuple(m["n"]), subregions=sr or None)
         fld.disown(sr)
         return mesh, names
+    if emb.name == EIGHTH.name:
+        # cells of half a unit (4 quanta of 1/8): every corner that happens to be a whole number is given as a Python int, so that
+        # integer-typed subregion corners meet fractional cell faces (seeded change C14-22 clipped subregions in the integer
+        # arrays of their own corners)
+        def typed(vals):
+            return [int(v) if float(v).is_integer() else float(v) for v in vals]
+        nd = len(m["n"])
+        lo = [emb.x(m["lo"][d]) for d in range(nd)]
+        hi = [emb.x(m["lo"][d] + m["c"][d] * m["n"][d]) for d in range(nd)]
+        sr = {s["name"]: df.Region(p1=typed([emb.x(v) for v in s["box"]["lo"]]), p2=typed([emb.x(v) for v in s["box"]["hi"]])) for s in subs}
+        mesh = df.Mesh(region=df.Region(p1=typed(lo), p2=typed(hi), dims=names), n=tuple(m["n"]), subregions=sr or None)
+        fld.disown(sr)
+        return mesh, names
     return lat.mesh_of(df, m, emb, dims=names, flip=lat.flip_for(m), subregions=sub_regions(df, subs, emb) or None), names
+
+
+EIGHTH = embed.Embedding("eighth", 0.125, 0.0, True)
 
 
 def apply_step(mesh, names, h, emb):
@@ -755,7 +771,7 @@ def run_traces(ctx, df, ntraces, embs):
 def run(ctx):
     df = core.import_library()
     _SCRATCH[0] = ctx.scratch
-    embs = embed.for_tier(ctx.tier, ctx.seed)
+    embs = embed.for_tier(ctx.tier, ctx.seed) + [EIGHTH]
     r = ctx.model("MC_C14", f"C14_{ctx.tier}.cfg", dump=True)
     if r.ok:
         with open(r.dump) as fh:
@@ -804,7 +820,7 @@ def replay(ctx, path):
     if "state" not in w:
         print("trace witness (re-run `./check C14` with the recorded seed to reproduce):", json.dumps(w)[:3000])
         return 1
-    embs = {e.name: e for e in embed.DYADIC + embed.REAL + embed.seeded(rp.get("seed", ctx.seed), 2)}
+    embs = {e.name: e for e in embed.DYADIC + embed.REAL + embed.seeded(rp.get("seed", ctx.seed), 2) + [EIGHTH]}
     st = dict(w["state"])
     pr = w.get("probe")
     st["probes"] = [tuple(pr)] if pr is not None else [(None, None)]
